@@ -6,7 +6,7 @@ import itertools
 import numpy as np
 
 from .. import ops, state
-from ..common import hx, key_family, rand_key, run_cases, sk, unhx
+from ..common import pick, hx, key_family, rand_key, run_cases, sk, unhx
 from ..refs import hashes_ref, hll_ref
 
 ID = "C02"
@@ -152,7 +152,7 @@ def gen_crafted(rng, ctx):
     for p in range(7, 17):
         width = 64 - p
         for rank in range(1, width + 2):
-            idx = int(rng.choice([0, 1, (1 << p) - 1, int(rng.integers(0, 1 << p))]))
+            idx = pick(rng, [0, 1, (1 << p) - 1, int(rng.integers(0, 1 << p))])
             if rank == width + 1:
                 rest = 0
             else:
